@@ -72,7 +72,8 @@ struct Parsed {
     topo: Topo,
     lvs: i64,
     params: Params,
-    valid: HashSet<i64>,
+    /// the validity sets of the two checkers a history may install (equal unless the history says otherwise)
+    worlds: Vec<HashSet<i64>>,
     calls: Vec<Call>,
     iters: Vec<(Scripted, Scripted)>,
     setup_goal: Vec<Scripted>,
@@ -102,7 +103,12 @@ fn parse(h: &Value, lineno: usize, vseed: u64, cache: &mut HashMap<Vec<bool>, u6
         other => other.parse::<f64>().unwrap_or(0.5),
     };
     let seeded = h["seeded"].as_bool().unwrap_or(true);
-    let valid: HashSet<i64> = h["valid"].as_array().unwrap().iter().map(|v| v.as_i64().unwrap()).collect();
+    let setof = |v: &Value| -> HashSet<i64> { v.as_array().unwrap().iter().map(|v| v.as_i64().unwrap()).collect() };
+    let worlds: Vec<HashSet<i64>> = match h.get("worlds").and_then(|w| w.as_array()) {
+        Some(ws) => ws.iter().map(setof).collect(),
+        None => vec![setof(&h["valid"]), setof(&h["valid"])],
+    };
+    let nw = worlds.len();
     let build_ticks = h["build"].as_u64().unwrap_or(0);
     let fault_kind = h["fault"]["f"].as_str().unwrap_or("none").to_string();
     let fault_k = h["fault"]["k"].as_u64().unwrap_or(0);
@@ -120,14 +126,18 @@ fn parse(h: &Value, lineno: usize, vseed: u64, cache: &mut HashMap<Vec<bool>, u6
     for c in h["calls"].as_array().unwrap() {
         match c["c"].as_str().unwrap() {
             "setup" => {
-                calls.push(Call::Setup(c["i"].as_u64().unwrap() as usize - 1));
+                // setup(problem i, checker v): entry (i, v) of the problem x checker table; without `v`
+                // every problem comes with a checker object of its own, as before
+                let pi = c["i"].as_u64().unwrap() as usize - 1;
+                let vi = c.get("v").and_then(|v| v.as_u64()).map(|v| v as usize - 1).unwrap_or(pi % nw);
+                calls.push(Call::Setup(pi * nw + vi));
                 if let Some(g) = c.get("g").and_then(|g| g.as_i64()) {
                     setup_goal.push(Scripted::Point(g));
                 }
             }
             "solve" => calls.push(Call::Solve(c["t"].as_u64().unwrap_or(h["solve_t"].as_u64().unwrap_or(3)))),
             "construct" => calls.push(Call::Construct),
-            "setpd" => calls.push(Call::SetPd(c["i"].as_u64().unwrap() as usize - 1)),
+            "setpd" => calls.push(Call::SetPd((c["i"].as_u64().unwrap() as usize - 1) * nw)),
             "it" | "ps" => {
                 let q = c["q"].as_i64().unwrap();
                 let k = c["k"].as_str().unwrap_or("u");
@@ -167,7 +177,7 @@ fn parse(h: &Value, lineno: usize, vseed: u64, cache: &mut HashMap<Vec<bool>, u6
         topo,
         lvs,
         params: Params { maxd, bias, radius, build_ticks, seed },
-        valid,
+        worlds,
         calls,
         iters,
         setup_goal,
@@ -177,7 +187,7 @@ fn parse(h: &Value, lineno: usize, vseed: u64, cache: &mut HashMap<Vec<bool>, u6
     }
 }
 
-fn run_once(p: &Parsed) -> (Vec<CallRec<LState>>, usize) {
+fn run_once(p: &Parsed, tick_query: u64) -> (Vec<CallRec<LState>>, usize) {
     let space = LatticeSpace::new(p.topo, p.lvs as f64);
     let script = space.script.clone();
     {
@@ -185,16 +195,22 @@ fn run_once(p: &Parsed) -> (Vec<CallRec<LState>>, usize) {
         sc.iters = p.iters.clone();
         sc.setup_goal = p.setup_goal.iter().cloned().collect();
     }
+    // the table of (problem definition, checker) combinations: same problem => same Arc<ProblemDefinition>,
+    // same checker => same checker Arc (identity matters to caches keyed on it)
     let mut problems = Vec::new();
-    for (starts, gset) in &p.probs {
-        let v = p.valid.clone();
-        problems.push(Problem {
-            starts: starts.clone(),
-            goal: Rc::new(LatGoal { set: gset.clone(), script: script.clone(), topo: p.topo }),
-            checker: Rc::new(move |s: &LState| v.contains(&s.0)),
-        });
+    for (pi, (starts, gset)) in p.probs.iter().enumerate() {
+        for (vi, w) in p.worlds.iter().enumerate() {
+            let v = w.clone();
+            problems.push(Problem {
+                starts: starts.clone(),
+                goal: Rc::new(LatGoal { set: gset.clone(), script: script.clone(), topo: p.topo }),
+                checker: Rc::new(move |s: &LState| v.contains(&s.0)),
+                pd_key: Some(pi),
+                vc_key: Some(vi),
+            });
+        }
     }
-    let cfg = RunCfg { fail_uniform_at: p.cfg_fail_u, fail_goal_at: p.cfg_fail_g, ..RunCfg::default() };
+    let cfg = RunCfg { fail_uniform_at: p.cfg_fail_u, fail_goal_at: p.cfg_fail_g, tick_query, ..RunCfg::default() };
     let hook_script = script.clone();
     let recs = run_history_marked(p.kind, &p.params, space, &problems, &p.calls, &cfg, &move |c: &Call, begin: bool| {
         if let Call::Setup(_) = c {
@@ -317,12 +333,12 @@ fn main() {
         }
         let h: Value = serde_json::from_str(&line).expect("hist json");
         let p = parse(&h, lineno, vseed, &mut cache);
-        let (recs, over) = run_once(&p);
+        let (recs, over) = run_once(&p, 0);
         overruns += over;
-        let pinfo: Vec<ProblemInfo<LState>> = p
-            .probs
-            .iter()
-            .map(|(starts, gset)| {
+        let nw = p.worlds.len();
+        let mut pinfo: Vec<ProblemInfo<LState>> = Vec::new();
+        for (starts, gset) in &p.probs {
+            for world in &p.worlds {
                 let gs = gset.clone();
                 // exact reachability through valid points by unit lattice steps
                 let feas = match starts.first() {
@@ -333,12 +349,12 @@ fn main() {
                         seen.insert(st.0);
                         while let Some(a) = stack.pop() {
                             for b in 0..p.topo.npoints() {
-                                if p.topo.d(a, b) == 1 && p.valid.contains(&b) && seen.insert(b) {
+                                if p.topo.d(a, b) == 1 && world.contains(&b) && seen.insert(b) {
                                     stack.push(b);
                                 }
                             }
                         }
-                        if gset.iter().any(|g| seen.contains(g) && (p.valid.contains(g))) {
+                        if gset.iter().any(|g| seen.contains(g) && (world.contains(g))) {
                             1
                         } else if p.lvs > 1 {
                             2 // a wall thinner than the resolution may legitimately be missed
@@ -347,24 +363,38 @@ fn main() {
                         }
                     }
                 };
-                ProblemInfo { start: starts.first().cloned(), goal_sat: Box::new(move |s: &LState| gs.contains(&s.0)), feas }
-            })
-            .collect();
-        let geom = LatGeom { topo: p.topo, lvs: p.lvs, valid: p.valid.clone() };
-        let mut an = Annot::new(&geom, p.kind, p.params.clone());
+                pinfo.push(ProblemInfo { start: starts.first().cloned(), goal_sat: Box::new(move |s: &LState| gs.contains(&s.0)), feas });
+            }
+        }
+        let geoms: Vec<LatGeom> = p.worlds.iter().map(|w| LatGeom { topo: p.topo, lvs: p.lvs, valid: w.clone() }).collect();
+        let mut an = Annot::new(&geoms[0], p.kind, p.params.clone());
+        an.nvc = Some(nw);
         an.reset(lineno + 1, json!({"line": lineno + 1}));
         for r in &recs {
+            if let Call::Setup(c) = r.call {
+                an.set_geom(&geoms[c % nw]);
+            }
             an.call(r, &pinfo);
         }
         if let Some(last) = an.out.last() {
-            distinct_snaps.insert(format!("{}{}{}|{}", h["topo"], h["valid"], h["probs"], last["snap"]));
+            distinct_snaps.insert(format!("{}{}{}{}|{}", h["topo"], h["valid"], h["worlds"], h["probs"], last["snap"]));
         }
         if twice {
-            let (recs2, _) = run_once(&p);
+            let (recs2, _) = run_once(&p, 0);
             let mut ids = HashMap::new();
             for (inst, rr) in [(1, &recs), (2, &recs2)] {
                 for (ci, (ds, o, pan)) in digests(rr, &mut ids).into_iter().enumerate() {
                     an.out.push(json!({"ev": "stream", "inst": inst, "call": ci + 1, "draws": ds, "res": o, "pan": pan, "tag": "C07"}));
+                }
+            }
+            // a third same-seed instance on a slower clock (every validity query costs a tick, so
+            // deadlines fall in the middle of iterations): timing may change how many iterations
+            // complete, never what an iteration does
+            if p.params.seed.is_some() {
+                let (recs3, _) = run_once(&p, 1);
+                let mut tids = HashMap::new();
+                if let (Some(a), Some(b)) = (vharness::timing::epochs(&recs, &mut tids), vharness::timing::epochs(&recs3, &mut tids)) {
+                    an.out.push(json!({"ev": "timing", "a": a, "b": b}));
                 }
             }
         }
